@@ -94,6 +94,9 @@ func genC11(t *testing.T) {
 			return
 		}
 		c.Site, c.End = c.Stage+"/"+c.Mode, "cancel"
+		if n%2 == 0 {
+			c.End = "cancel-drain"
+		}
 		runCase(t, c, c11Hooks())
 	}
 	ticks := []int64{1, 1_000_000, 1_000_000_000, 3_600_000_000_000}
@@ -136,6 +139,10 @@ func genC11(t *testing.T) {
 						run(&caseT{Stage: "Unfold", Mode: "pure", Cap: cp, N: 1 + k%7, Tick: 1000, FSeed: uint64(k), Script: sc})
 					}
 					run(&caseT{Stage: "Unfold", Mode: "pure", Cap: cp, N: 1 + k%7, Tick: 1000, FSeed: uint64(k), Script: append(rep("R0!", T+cp), "W", "X")})
+					// slow step function (virtual delay below one tick), consumer always waiting, cancel in the middle
+					for _, sc := range [][]string{{"D0", "A1000000", "A1000000", "X"}, {"R0", "R0", "A1000000", "X", "A1000000"}, append(append([]string{"D0!"}, rep("A1000000", T)...), "X")} {
+						run(&caseT{Stage: "Unfold", Mode: "pure", Cap: cp, N: 1 + k%7, Tick: 1000000, Delay: 900, FSeed: uint64(k), Script: sc, Comment: "slow step"})
+					}
 				}
 			}
 		}
@@ -149,7 +156,15 @@ func genC11(t *testing.T) {
 		T := 1 + r.IntN(20)
 		if r.IntN(3) == 0 {
 			c.Stage, c.N = "Unfold", 1+r.IntN(100)
-			c.Script = randInterleave(r, [][]string{rep("R0", r.IntN(T+1)), {"X"}, rep(A, r.IntN(3))}, []int{0, 40}[r.IntN(2)])
+			cons := rep("R0", r.IntN(T+1))
+			if r.IntN(2) == 0 {
+				c.Delay, c.Tick = 900, 1000000
+				A = "A1000000"
+				if r.IntN(2) == 0 {
+					cons = []string{"D0"}
+				}
+			}
+			c.Script = randInterleave(r, [][]string{cons, {"X"}, rep(A, r.IntN(4))}, []int{0, 40}[r.IntN(2)])
 		} else {
 			c.Stage = "Emit"
 			seqs := [][]string{rep(A, T), rep("R0", r.IntN(T+2)), {"X"}}
